@@ -211,14 +211,23 @@ def attr_names(cls):
     return names
 
 
+# boundary values: falsy numbers and "another class's default" (each is a legal setting)
+EDGE = {"bias_towards_insert": [0.0, 1.0], "probability": [0.0], "minimum_count": [0, 2], "interval": [1, 7], "step_size": [1.0, 2.5], "max_value": [1.0], "max_steps": [1], "dt": [1.0], "apply_constraints": [True], "scale_atoms": [True]}
+
+
 def construct(cls, which):
-    """which: None (defaults), a parameter name (only that one non-default) or 'ALL'."""
+    """which: None (defaults), a parameter name (only that one non-default), 'ALL', or
+    ('EDGE', pname, value): that parameter at a boundary value."""
     sig = inspect.signature(cls.__init__)
     kwargs = {}
+    edge = which if isinstance(which, tuple) else None
     for pname, p in list(sig.parameters.items())[1:]:
         if p.kind in (p.VAR_POSITIONAL, p.VAR_KEYWORD):
             continue
         required = p.default is inspect._empty
+        if edge and pname == edge[1]:
+            kwargs[pname] = edge[2]
+            continue
         if required or which == "ALL" or which == pname:
             v = value_for(cls, pname)
             if v is None:
@@ -315,6 +324,28 @@ for qual, cls in sorted(classes.items()):
                     except Exception:  # noqa: BLE001
                         pass
         roundtrip(cls, obj, f"non-default: {which}", tun)
+    # boundary values of single parameters, and post-construction tunables at several values
+    for pname in params:
+        for ev in EDGE.get(pname, []):
+            try:
+                obj, why = construct(cls, ("EDGE", pname, ev))
+            except Exception:  # noqa: BLE001
+                continue  # not a legal value for this class
+            if obj is not None:
+                roundtrip(cls, obj, f"boundary value: {pname}={ev!r}", [])
+    for t, vals in (("max_attempts", [1, 10, 10000]), ("default_label", [-1, 3])):
+        for v in vals:
+            try:
+                obj, why = construct(cls, None)
+            except Exception:  # noqa: BLE001
+                break
+            if obj is None or not hasattr(obj, t):
+                break
+            try:
+                setattr(obj, t, v)
+            except Exception:  # noqa: BLE001
+                break
+            roundtrip(cls, obj, f"tunable set after construction: {t}={v!r}", [t])
 
 # ------------------------------------------------------------------ simulation level
 from qv import calcs  # noqa: E402
@@ -326,7 +357,13 @@ def sim_settings(sim):
         if hasattr(sim, n):
             vals[n] = obj_snapshot(getattr(sim, n))
     vals["rng_state"] = json.dumps(sim._rng.bit_generator.state, sort_keys=True, default=str)
-    vals["moves"] = sorted(sim.moves) if hasattr(sim, "moves") else None
+    vals["moves"] = list(sim.moves) if hasattr(sim, "moves") else None  # order matters: it is the order the scheduler draws from
+    for name, st in (sim.moves.items() if hasattr(sim, "moves") else ()):
+        vals[f"move[{name}].interval"] = obj_snapshot(st.interval)
+        vals[f"move[{name}].probability"] = obj_snapshot(float(st.probability))
+        vals[f"move[{name}].minimum_count"] = obj_snapshot(int(st.minimum_count))
+        vals[f"move[{name}].criteria"] = type(st.criteria).__name__
+        vals[f"move[{name}].move"] = encode(st.move.to_dict())
     return vals
 
 
@@ -350,7 +387,9 @@ def make_sim(kind):
         sim = MonteCarlo(atoms, **common)
     elif kind == "Canonical":
         sim = Canonical(atoms, temperature=777.0, **common)
-        sim.add_move(DisplacementMove(np.arange(3), Box(0.3)), name="d", interval=2, probability=0.4)
+        sim.add_move(DisplacementMove(np.arange(3), Box(0.3)), name="wide", interval=2, probability=0.4)
+        sim.add_move(DisplacementMove(np.arange(3), Box(0.1)), name="narrow", probability=0.6, minimum_count=1)
+        sim.add_move(DisplacementMove(np.arange(3), Box(0.2)), name="parked", probability=0.0)  # a move the user has switched off
     elif kind == "HamiltonianCanonical":
         sim = HamiltonianCanonical(atoms, temperature=777.0, **common)
         sim.add_move(HamiltonianDisplacementMove(operation=Verlet(dt=0.7, max_steps=3)), name="h")
